@@ -140,7 +140,48 @@ def do_run(ids, tier, props, slot='0'):
             json.dump(m, f, indent=1)
 
 
+def do_runall(ids, nslots, tier, props):
+    """Run many seeded ids over nslots parallel private copies."""
+    import queue
+    import threading
+    q = queue.Queue()
+    for i in ids:
+        q.put(i)
+
+    def worker(k):
+        while True:
+            try:
+                sid = q.get_nowait()
+            except queue.Empty:
+                return
+            cmd = ['python3', os.path.abspath(__file__), 'run', sid, '--slot', f'q{k}', '--tier', tier]
+            if props:
+                cmd += ['--props', ','.join(props)]
+            rc, o = sh(cmd, timeout=14400)
+            print(o.strip()[-1500:], flush=True)
+    ths = [threading.Thread(target=worker, args=(k,)) for k in range(nslots)]
+    for t in ths:
+        t.start()
+    for t in ths:
+        t.join()
+
+
 def main():
+    if sys.argv[1] == 'runall':
+        args = sys.argv[2:]
+        nslots, tier, props, ids = 3, 'quick', None, []
+        i = 0
+        while i < len(args):
+            if args[i] == '--slots':
+                nslots = int(args[i + 1]); i += 2
+            elif args[i] == '--tier':
+                tier = args[i + 1]; i += 2
+            elif args[i] == '--props':
+                props = args[i + 1].split(','); i += 2
+            else:
+                ids.append(args[i]); i += 1
+        do_runall(ids, nslots, tier, props)
+        return
     if sys.argv[1] == 'import':
         do_import(sys.argv[2], sys.argv[3])
     elif sys.argv[1] == 'run':
